@@ -57,14 +57,32 @@ fn c08_advance_order_plain() {
     let got = PlayerRecurse::advance(&mut info, it as u64, &p);
     let (mut r, mut cs, mut st) = (r0, c0, [0.25, 0.75]);
     let want = spec(&p, it as u64, &mut r, &mut cs, &mut st);
-    kani::cover!(p.pos_regret == f64::NEG_INFINITY && r0[0] > 0.0 && r0[1] < 0.0, "forgetting positive regret after matching on it");
-    kani::cover!(r0[0] <= 0.0 && r0[1] <= 0.0 && p.no_positive == f64::INFINITY, "fallback to the best action");
+    kani::cover!(
+        p.pos_regret == f64::NEG_INFINITY && r0[0] > 0.0 && r0[1] < 0.0,
+        "forgetting positive regret after matching on it"
+    );
+    kani::cover!(
+        r0[0] <= 0.0 && r0[1] <= 0.0 && p.no_positive == f64::INFINITY,
+        "fallback to the best action"
+    );
     for i in 0..2 {
-        assert!(info.strat[i] == st[i], "C08 order: next strategy is not regret matching on the undiscounted cumulative regret");
-        assert!(info.cum_regret[i] == r[i] || (info.cum_regret[i] == 0.0 && r[i] == 0.0), "C08 order: cumulative regret after the update is not the discounted regret");
-        assert!(info.cum_strat[i] == cs[i], "C08 order: average strategy changed although gamma is 0");
+        assert!(
+            info.strat[i] == st[i],
+            "C08 order: next strategy is not regret matching on the undiscounted cumulative regret"
+        );
+        assert!(
+            info.cum_regret[i] == r[i] || (info.cum_regret[i] == 0.0 && r[i] == 0.0),
+            "C08 order: cumulative regret after the update is not the discounted regret"
+        );
+        assert!(
+            info.cum_strat[i] == cs[i],
+            "C08 order: average strategy changed although gamma is 0"
+        );
     }
-    assert!(got == want, "C02 bound: reported bound is not 2*max(R,0)/t of the discounted regrets of this iteration");
+    assert!(
+        got == want,
+        "C02 bound: reported bound is not 2*max(R,0)/t of the discounted regrets of this iteration"
+    );
     core::mem::forget(info);
 }
 
@@ -85,13 +103,19 @@ fn c08_advance_order_mutex() {
     let got = MutexPlayerRecurse::advance(&mut info, it as u64, &p);
     let (mut r, mut cs, mut st) = (r0, c0, [0.25, 0.75]);
     let want = spec(&p, it as u64, &mut r, &mut cs, &mut st);
-    kani::cover!(p.pos_regret == 0.0 && r0[0] > 0.0 && r0[1] > 0.0, "halving positive regrets");
+    kani::cover!(
+        p.pos_regret == 0.0 && r0[0] > 0.0 && r0[1] > 0.0,
+        "halving positive regrets"
+    );
     let cs_got = info.cum_strat.get_mut().unwrap();
     for i in 0..2 {
         let rg = *info.cum_regret[i].get_mut();
         assert!(info.strat[i] == st[i], "C08 order: next strategy is not regret matching on the undiscounted cumulative regret (multi-thread infoset)");
         assert!(rg == r[i] || (rg == 0.0 && r[i] == 0.0), "C08 order: cumulative regret after the update is not the discounted regret (multi-thread infoset)");
-        assert!(cs_got[i] == cs[i], "C08 order: average strategy changed although gamma is 0 (multi-thread infoset)");
+        assert!(
+            cs_got[i] == cs[i],
+            "C08 order: average strategy changed although gamma is 0 (multi-thread infoset)"
+        );
     }
     assert!(got == want, "C02 bound: reported bound is not 2*max(R,0)/t of the discounted regrets (multi-thread infoset)");
     core::mem::forget(info);
@@ -116,11 +140,23 @@ fn c08_advance_average_index_plain() {
     kani::cover!(it == 5 && g == 2, "iteration 5, gamma 2");
     unsafe {
         let t = it as f64;
-        assert!(POW_CALLS == 1, "C08 average: the average strategy must be discounted exactly once per update");
-        assert!(POW_BASE >= t / (t + 1.0) - 1e-12 && POW_BASE <= t / (t + 1.0) + 1e-12, "C08 average: discount base is not t/(t+1) for the current iteration");
-        assert!(POW_EXP == g as f64, "C08 average: discount exponent is not gamma");
+        assert!(
+            POW_CALLS == 1,
+            "C08 average: the average strategy must be discounted exactly once per update"
+        );
+        assert!(
+            POW_BASE >= t / (t + 1.0) - 1e-12 && POW_BASE <= t / (t + 1.0) + 1e-12,
+            "C08 average: discount base is not t/(t+1) for the current iteration"
+        );
+        assert!(
+            POW_EXP == g as f64,
+            "C08 average: discount exponent is not gamma"
+        );
     }
-    assert!(info.cum_strat[0] == 0.5 && info.cum_strat[1] == 1.5, "C08 average: average strategy not scaled by the weight");
+    assert!(
+        info.cum_strat[0] == 0.5 && info.cum_strat[1] == 1.5,
+        "C08 average: average strategy not scaled by the weight"
+    );
     core::mem::forget(info);
 }
 
@@ -145,10 +181,16 @@ fn c08_advance_average_index_mutex() {
         let t = it as f64;
         assert!(POW_CALLS == 1, "C08 average: the average strategy must be discounted exactly once per update (multi-thread infoset)");
         assert!(POW_BASE >= t / (t + 1.0) - 1e-12 && POW_BASE <= t / (t + 1.0) + 1e-12, "C08 average: discount base is not t/(t+1) for the current iteration (multi-thread infoset)");
-        assert!(POW_EXP == g as f64, "C08 average: discount exponent is not gamma (multi-thread infoset)");
+        assert!(
+            POW_EXP == g as f64,
+            "C08 average: discount exponent is not gamma (multi-thread infoset)"
+        );
     }
     let cs = info.cum_strat.get_mut().unwrap();
-    assert!(cs[0] == 0.5 && cs[1] == 1.5, "C08 average: average strategy not scaled by the weight (multi-thread infoset)");
+    assert!(
+        cs[0] == 0.5 && cs[1] == 1.5,
+        "C08 average: average strategy not scaled by the weight (multi-thread infoset)"
+    );
     core::mem::forget(info);
 }
 
@@ -187,12 +229,21 @@ fn c08_advance_regret_discount_index() {
     let b2 = MutexPlayerRecurse::advance(&mut minfo, it as u64, &p);
     kani::cover!(it == 7, "iteration 7");
     unsafe {
-        assert!(GD_N == 4, "C08 order: each update must compute one positive and one negative regret discount");
+        assert!(
+            GD_N == 4,
+            "C08 order: each update must compute one positive and one negative regret discount"
+        );
         assert!(GD_ITS[0] == it as u64 && GD_ITS[1] == it as u64 && GD_ITS[2] == it as u64 && GD_ITS[3] == it as u64,
             "C08 order: regret discount computed with an iteration index other than the current one");
     }
-    assert!(info.cum_regret[0] == 1.0 && info.cum_regret[1] == -2.0, "C08 order: regrets not multiplied by their discount factors");
-    assert!(b == 2.0 * 1.0 / it as f64 && b2 == b, "C02 bound: reported bound is not 2*max(R,0)/t of the discounted regrets");
+    assert!(
+        info.cum_regret[0] == 1.0 && info.cum_regret[1] == -2.0,
+        "C08 order: regrets not multiplied by their discount factors"
+    );
+    assert!(
+        b == 2.0 * 1.0 / it as f64 && b2 == b,
+        "C02 bound: reported bound is not 2*max(R,0)/t of the discounted regrets"
+    );
     core::mem::forget(info);
     core::mem::forget(minfo);
 }
